@@ -48,7 +48,7 @@ type Letx struct {
 func (f *Letx) Call(s *slip.Scope, args slip.List, depth int) (result slip.Object) {
 	slip.CheckArgCount(s, depth, f, args, 1, -1)
 	bindings, ok := args[0].(slip.List)
-	if !ok {
+	if !ok && args[0] != nil { // nil is the empty list of bindings
 		slip.TypePanic(s, depth, "let* bindings", args[0], "list")
 	}
 	ns := s.NewScope()
